@@ -220,6 +220,16 @@ func (u *UserHash) writeHashStr(password string, isAdmin bool, mayCreate bool) e
 	return dir.Sync()
 }
 
+// syncDir flushes changes of directory entries (rename, unlink) to disk.
+func syncDir(path string) error {
+	dir, err := os.Open(path)
+	if err != nil {
+		return err
+	}
+	defer dir.Close() //nolint:errcheck
+	return dir.Sync()
+}
+
 // Add creates the hash file. It is an error if the user already exists.
 func (u *UserHash) Add(password string, isAdmin bool) error {
 	exists, _, err := u.Exists()
@@ -269,7 +279,10 @@ func (u *UserHash) SetAdmin(adminState bool) error {
 		oldname += adminExt
 		newname += userExt
 	}
-	return os.Rename(oldname, newname)
+	if err := os.Rename(oldname, newname); err != nil {
+		return err
+	}
+	return syncDir(u.store.BaseDir)
 }
 
 // Remove deletes hash file.
@@ -280,6 +293,7 @@ func (u *UserHash) Remove() {
 	filename := filepath.Join(u.store.BaseDir, u.user)
 	os.Remove(filename + adminExt) //nolint:errcheck
 	os.Remove(filename + userExt)  //nolint:errcheck
+	syncDir(u.store.BaseDir)       //nolint:errcheck
 }
 
 // Exists checks if user exists. It also returns whether user is an admin. This returns true even if
